@@ -211,6 +211,22 @@ func (r *run) judgeAdd(p *addPlan, errs []error, before string) {
 			fmt.Sprintf("%s\nbefore: %s\nafter:  %s", p, before, r.contentKey()))
 		r.m.hit("refused-but-changed")
 	}
+	// The pool ends a submission with a reorganisation (which is what enforces the limits) only if
+	// at least one transaction of the batch got past the pre-checks made without the pool lock
+	// (already known, unrecoverable sender, blacklisted sender): a batch of which none does
+	// returns before that. Limits left exceeded by an earlier price or head change are then still
+	// exceeded, legitimately (same deferred enforcement as above).
+	ranReorg := false
+	for _, e := range errs {
+		if e == nil || (e.Error() != tx_pool.ErrAlreadyKnown.Error() && e.Error() != tx_pool.ErrInvalidSender.Error() && e.Error() != tx_pool.ErrBlacklistedSender.Error()) {
+			ranReorg = true
+		}
+	}
+	if !ranReorg {
+		r.res.Probe("submission-stopped-by-the-pre-checks-without-reorganisation")
+		r.check("add-known", optional)
+		return
+	}
 	r.check("add", optional)
 }
 
